@@ -151,6 +151,15 @@ wait:
 		binary.BigEndian.PutUint16(*r, orgId)
 		return r, nil
 	case <-dc.closeNotify:
+		// The reply may have been delivered right before the connection was
+		// closed (e.g. the peer sent the reply and then closed). Prefer it.
+		select {
+		case r := <-respChan:
+			orgId := binary.BigEndian.Uint16(q)
+			binary.BigEndian.PutUint16(*r, orgId)
+			return r, nil
+		default:
+		}
 		return nil, dc.closeErr
 	}
 }
